@@ -535,12 +535,12 @@ def why_sets(why):
     return out
 
 
-def report(ctx, case, rt, verdict, replay, label):
+def report(ctx, viol, case, rt, verdict, replay, label):
     """Translate one rejected event into violations, one per failing clause, keyed by the input's shape."""
     pf, ef = shape(case)
     parts = why_sets(verdict['why'])
     if not parts:
-        ctx.violation('%s:unexplained' % label, 'trace rejected without clause names', replay)
+        viol('%s:unexplained' % label, 'trace rejected without clause names', replay)
         return ['?']
     keys = []
     for part, clauses in sorted(parts.items()):
@@ -564,7 +564,7 @@ def report(ctx, case, rt, verdict, replay, label):
                 desc = 'clause %s' % c
             if key not in keys:
                 keys.append(key)
-                ctx.violation(key, desc, replay)
+                viol(key, desc, replay)
     if not keys and 'ctor' in parts:
         ctx.drift({'what': 'constructor stores something else than the arguments', 'case': replay})
     return keys
@@ -601,6 +601,15 @@ def strip_event(ev):
 
 # ---------------------------------------------------------------- main
 def run(ctx):
+    seen_keys = {}
+
+    def viol(key, desc, replay):
+        """At most three replay files per shape key; known findings are always counted."""
+        if seen_keys.get(key, 0) >= 3:
+            ctx.count('violations_same_key_not_repeated')
+            return
+        if ctx.violation(key, desc, replay):
+            seen_keys[key] = seen_keys.get(key, 0) + 1
     quick = ctx.quick
     base = os.path.realpath(ctx.sub('fs'))
     neutral = os.path.realpath(ctx.sub('neutral'))
@@ -730,7 +739,7 @@ def run(ctx):
     traces, back = [], []
     for i, r in enumerate(results):
         if 'exc' in r:
-            ctx.violation('crash:%s' % r['exc'], 'Project/Script/get_sys_path raised on a rendered case',
+            viol('crash:%s' % r['exc'], 'Project/Script/get_sys_path raised on a rendered case',
                           {'item': {k: v for k, v in items[i].items() if k not in ('base', 'neutral')},
                            'concrete': r.get('concrete'), 'tb': r.get('tb')})
             continue
@@ -740,7 +749,7 @@ def run(ctx):
         back.append(('case', i))
     for i, r in enumerate(dres):
         if 'exc' in r:
-            ctx.violation('discover-crash:%s' % r['exc'], 'get_default_project raised', r)
+            viol('discover-crash:%s' % r['exc'], 'get_default_project raised', r)
             continue
         traces.append([{'t': 'disc', 'chain': r['chain'], 'res': r['res']}])
         back.append(('disc', i))
@@ -761,7 +770,7 @@ def run(ctx):
             stats['tlc_cases' if meta[i] != 'random' else 'random_cases'] += 1
             stats['import_experiments'] += len(ev['wins'])
             stats['nonstr_entries'] += len(r['nonstr'])
-            keys = [] if v['accepted'] else report(ctx, case, ev['rt'][0], v, replay, meta[i])
+            keys = [] if v['accepted'] else report(ctx, viol, case, ev['rt'][0], v, replay, meta[i])
             # CPython's import system as judge of the Reference's reading of "first entry wins"
             imp_rejected = (not v['accepted']) and 'ImportUsesPath' in why_sets(v['why']).get('imp', [])
             pairs = list(zip(ev['wins'], r.get('oracle_import', [])))
@@ -790,7 +799,7 @@ def run(ctx):
                                'concrete': r['concrete'], 'diffs': diffs[:3]})
             if 'discovered' in r and r['discovered'] != ev['rt'][0]['q']:
                 pf, _ = shape(case)
-                ctx.violation('discover:saved-project-not-loaded:proj=%s' % pf,
+                viol('discover:saved-project-not-loaded:proj=%s' % pf,
                               'get_default_project from the script directory does not return the saved settings',
                               dict(replay, discovered=r['discovered']))
             if meta[i] == 'tlc':
@@ -802,7 +811,7 @@ def run(ctx):
             design = dcs[i]['res']
             dh = design['how'] if design['how'] in ('load', 'django') else 'plain'
             if not v['accepted']:
-                ctx.violation('discover:nearest-saved-config-not-loaded',
+                viol('discover:nearest-saved-config-not-loaded',
                               'get_default_project does not load the nearest saved configuration', r)
             elif (design['idx'], dh) != (r['res']['idx'], r['res']['how']):
                 ctx.drift({'what': 'discovery', 'chain': r['chain'], 'design': design, 'code': r['res']})
@@ -813,7 +822,7 @@ def run(ctx):
                 parts = why_sets(v['why'])
                 for part, clauses in sorted(parts.items()):
                     for c in clauses:
-                        ctx.violation('corpus:%s:%s' % (part, c), 'composed sys.path for a repository file breaks %s' % c,
+                        viol('corpus:%s:%s' % (part, c), 'composed sys.path for a repository file breaks %s' % c,
                                       dict(r['concrete'], why=str(v['why'])))
     for k, n in stats.items():
         ctx.count(k, n)
@@ -831,39 +840,42 @@ def run(ctx):
                 and ev['R0'][0] not in ev['p']['sysp'][0][:2]:
             good = ev
             break
-    if good is None:
+    if good is None and not ctx.violations:
         raise MachineryError('binding self-test: no suitable accepted trace')
-    bads = []
-    b = copy.deepcopy(good)
-    i0, i1 = b['R0'].index(b['p']['sysp'][0][0]), b['R0'].index(b['p']['sysp'][0][1])
-    b['R0'][i0], b['R0'][i1] = b['R0'][i1], b['R0'][i0]
-    bads.append(('r0', 'BaseKept', b))
-    b = copy.deepcopy(good)
-    b['R1'].append(b['R1'][1])
-    bads.append(('r1', 'NoDup', b))
-    b = copy.deepcopy(good)
-    b['R2'][0] = {'abs': True, 'comps': ['r', 'zz'], 'ts': False}
-    bads.append(('r2', 'ProjectFirst', b))
-    b = copy.deepcopy(good)
-    b['rt'][0]['q']['smart'] = not b['rt'][0]['q']['smart']
-    bads.append(('rt', 'Settings', b))
-    b = copy.deepcopy(good)
-    b['wins'][0]['w'] = [] if b['wins'][0]['w'] else [b['wins'][0]['h'][0]]
-    bads.append(('imp', 'ImportUsesPath', b))
-    b = copy.deepcopy(good)
-    b['R0'].append({'abs': True, 'comps': ['r', 'zz', 'y'], 'ts': False})
-    bads.append(('r0', 'OnlyInside', b))
-    n0 = ctx.coverage['traces_validated_against_impl']
-    vs = validate_traces('Trace_ProjectPath', 'Trace_ProjectPath.cfg', [[x[2]] for x in bads] + [[good]], ctx,
-                         'binding self-test')
-    ctx.coverage['traces_validated_against_impl'] = n0
-    for (part, clause, _), v in zip(bads, vs):
-        if v['accepted'] or clause not in why_sets(v['why']).get(part, []):
-            raise MachineryError('binding self-test: corrupted record (%s/%s) not rejected as expected: %s'
-                                 % (part, clause, v))
-    if not vs[-1]['accepted']:
-        raise MachineryError('binding self-test: the uncorrupted record is rejected')
-    ctx.coverage['binding_selftest'] = 'corrupted records rejected: %s' % [c for _, c, _ in bads]
+    if good is None:
+        ctx.notes.append('binding self-test skipped: no accepted trace of the needed shape (violations are reported)')
+    else:
+        bads = []
+        b = copy.deepcopy(good)
+        i0, i1 = b['R0'].index(b['p']['sysp'][0][0]), b['R0'].index(b['p']['sysp'][0][1])
+        b['R0'][i0], b['R0'][i1] = b['R0'][i1], b['R0'][i0]
+        bads.append(('r0', 'BaseKept', b))
+        b = copy.deepcopy(good)
+        b['R1'].append(b['R1'][1])
+        bads.append(('r1', 'NoDup', b))
+        b = copy.deepcopy(good)
+        b['R2'][0] = {'abs': True, 'comps': ['r', 'zz'], 'ts': False}
+        bads.append(('r2', 'ProjectFirst', b))
+        b = copy.deepcopy(good)
+        b['rt'][0]['q']['smart'] = not b['rt'][0]['q']['smart']
+        bads.append(('rt', 'Settings', b))
+        b = copy.deepcopy(good)
+        b['wins'][0]['w'] = [] if b['wins'][0]['w'] else [b['wins'][0]['h'][0]]
+        bads.append(('imp', 'ImportUsesPath', b))
+        b = copy.deepcopy(good)
+        b['R0'].append({'abs': True, 'comps': ['r', 'zz', 'y'], 'ts': False})
+        bads.append(('r0', 'OnlyInside', b))
+        n0 = ctx.coverage['traces_validated_against_impl']
+        vs = validate_traces('Trace_ProjectPath', 'Trace_ProjectPath.cfg', [[x[2]] for x in bads] + [[good]], ctx,
+                             'binding self-test')
+        ctx.coverage['traces_validated_against_impl'] = n0
+        for (part, clause, _), v in zip(bads, vs):
+            if v['accepted'] or clause not in why_sets(v['why']).get(part, []):
+                raise MachineryError('binding self-test: corrupted record (%s/%s) not rejected as expected: %s'
+                                     % (part, clause, v))
+        if not vs[-1]['accepted']:
+            raise MachineryError('binding self-test: the uncorrupted record is rejected')
+        ctx.coverage['binding_selftest'] = 'corrupted records rejected: %s' % [c for _, c, _ in bads]
 
     ctx.assumptions += [
         'path strings are compared as strings ("/x" and "/x/" are two entries), as _remove_duplicates_from_path does',
